@@ -121,6 +121,16 @@ def strong_cases(draw):
         u = ['union', ['ref', 'UX'], ['ref', 'UY']]
         spec = {'classes': [i1, i2, x, y], 'order': ['In1', 'In2', 'UX', 'UY'],
                 'doc_type': draw(st.sampled_from([u, ['list', u], ['dict', 'str', u]]))}
+    elif draw(st.integers(0, 5)) == 0:
+        # scalar Unions/Optionals whose valid values make some alternatives fail
+        # before the corrupted node is reached
+        sc = {'name': 'SC', 'kind': 'obj', 'bases': [], 'params': [
+            {'name': 'u', 'type': ['union', 'int', 'str']}, {'name': 'o', 'type': ['opt', 'int']},
+            {'name': 'w', 'type': ['union', 'float', 'bool', 'none']},
+            {'name': 'n', 'type': 'int'}, {'name': 'm', 'type': 'int'}, {'name': 't', 'type': 'str'},
+            {'name': 'f', 'type': 'float'}]}
+        spec = {'classes': [sc], 'order': ['SC'],
+                'doc_type': draw(st.sampled_from([['ref', 'SC'], ['list', ['ref', 'SC']]]))}
     v = draw(gen.vspec_for(spec, spec['doc_type'], hard=False, omit_defaults=False))
     if v is None:
         return {'kind': 'strong', 'model': spec, 'tree': None}
